@@ -25,7 +25,7 @@ STEPS = ('open-polling', 'open-websocket', 'poll', 'post-message', 'post-close',
          'advance-interval', 'advance-past-bound', 'bad-method', 'bad-transport', 'unknown-sid', 'bad-version', 'poll-second-session',
          'post-binary', 'post-two-then-close', 'jsonp-poll', 'ws-pong', 'post-nonascii-over-bytes', 'post-ascii-at-limit',
          'post-ascii-over-limit', 'ws-frame-over-limit', 'ws-nonascii-frame', 'post-close-then-message', 'post-form-encoded',
-         'send-burst-over-limit', 'upgrade-slow-probe-send')
+         'send-burst-over-limit', 'upgrade-slow-probe-send', 'post-no-content-length', 'post-close-no-content-length')
 
 
 class _Side:
@@ -114,6 +114,9 @@ def _apply(side, step, n):
     elif step == 'poll-second-session':
         if 1 not in side.polls:
             side.polls[1] = req(step, sut.get(side.sid(1)))
+    elif step in ('post-no-content-length', 'post-close-no-content-length'):
+        # a POST sent with chunked transfer encoding: a body, but no Content-Length header
+        req(step, sut.post(s0, '4chunked%d' % n if step == 'post-no-content-length' else '1', declared_len='absent'))
     elif step.startswith('post-'):
         body = {'post-message': '4m%d' % n, 'post-close': '1', 'post-pong': '3', 'post-upgrade-packet': '5', 'post-type7': '7',
                 'post-garbage': 'zz', 'post-17-packets': '\x1e'.join(['4x'] * 17), 'post-binary': 'bAAEC',
@@ -139,6 +142,7 @@ def _apply(side, step, n):
         u = req(step, sut.ws_upgrade(s0, peer=wp))
         sut.settle()
         wp.paused = True
+        wp.slow = True
         wp.send('2probe')
         sut.settle()
         sut.app_send(s0, 'bp%d' % n)
